@@ -798,6 +798,14 @@ def esc_enum(model, rep):
         cases = [bytes(t) for n in range(1, 3 if quick else 4) for t in itertools.product(alphabet, repeat=n)]
         for b_ in cases:
             run_str(FB, [b_, list(allowed)], 'f_string.Bytes(%r, allowed=%s)' % (b_, allowed))
+        init = model.method(FB, '__init__')
+        if init is not None and 'pep701' in init.params:
+            # the escaping variant (backslashes are allowed inside replacement fields since PEP 701)
+            alphabet2 = [39, 34, 97, 10, 13, 35, 43, 92, 0, 255]
+            cases2 = [bytes(t) for n in range(1, 3 if quick else 4) for t in itertools.product(alphabet2, repeat=n)]
+            cases2 += [b"\\'+x#", b'\\"+x#', b"a\\'''+open(1)#", b'\\\\"+x#', b"\\\n'+x#"]
+            for b_ in cases2:
+                run_str(FB, [b_, list(allowed), True], 'f_string.Bytes(%r, allowed=%s, pep701=True)' % (b_, allowed))
     # end to end: the whole printer run on modules whose f-string fields hold crafted str / bytes constants (whatever classes do the quoting and
     # whatever their constructors look like): every text that reaches eval() while printing is inspected
     from ..absprint import print_module
